@@ -361,26 +361,27 @@ def memTable (rs : List Region) : M (List RangeMap.Entry) :=
   | .ok m => pure m
   | .panic s => M.panic s
 
-/-- `memory_at_address` [2177]: `regions_by_addr.get(address).and_then(|&index| self.regions.get(index))` -/
-def memoryAtAddress (tbl : List RangeMap.Entry) (rs : List Region) (a : Nat) : Option Region :=
-  match RangeMap.get tbl a with
-  | none => none
-  | some i => rs[i]?
-
-/-- the memory list `get_memory` serves, with its lookup table -/
+/-- the memory list `get_memory` serves, with its lookup table (arrays: O(1) / O(log n) access in
+    the compiled model; `RangeMap.get m a` is by definition `RangeMap.bsearch m.toArray a`) -/
 structure MemView where
-  regions : List Region
-  table : List RangeMap.Entry
+  regions : Array Region
+  table : Array RangeMap.Entry
   deriving Repr
 
-def MemView.empty : MemView := ⟨[], []⟩
+def MemView.empty : MemView := ⟨#[], #[]⟩
+
+/-- `memory_at_address` [2177]: `regions_by_addr.get(address).and_then(|&index| self.regions.get(index))` -/
+def memoryAtAddress (mv : MemView) (a : Nat) : Option Region :=
+  match RangeMap.bsearch mv.table a with
+  | none => none
+  | some i => mv.regions[i]?
 
 /-- `MinidumpThread::stack_memory` [2865]: the thread's own stack memory, else the region of the
     memory list that contains `stack.start_of_memory_range` -/
 def stackMemory (mv : MemView) (t : Thread) : Option Region :=
   match t.stack with
   | some r => some r
-  | none => memoryAtAddress mv.table mv.regions t.stackStart
+  | none => memoryAtAddress mv t.stackStart
 
 /-- `get_memory_at_address::<u32>(addr)` [2048]: `addr.checked_sub(base)? as usize`, then
     `bytes.pread_with::<u32>(start, endian)` on the region's bytes `all[rva .. rva+size]` -/
@@ -401,7 +402,7 @@ def lastError (all : Bytes) (e : Endian) (mv : MemView) (t : Thread) (cpu : CpuK
       match checkedAdd t.teb off with
       | none => none
       | some addr =>
-        match memoryAtAddress mv.table mv.regions addr with
+        match memoryAtAddress mv addr with
         | none => none
         | some r => regionU32 all e r addr
 
